@@ -150,14 +150,15 @@ func runC12(ctx *report.Ctx) {
 		StateKey: func(r *yc.Real, st variable.Storer) string { return dump.Values(r.DR, st) }}
 	ctx.Bound("calls_after_end", after)
 	size := report.Pick(ctx, 3, 4)
-	ctx.Bound("E1", fmt.Sprintf("<=%d statements over 1..2 nodes, alphabet line/opts(1-2, bodies)/if/set/jump/stop/command/call", size))
+	ctx.Bound("E1", fmt.Sprintf("<=%d statements over 1..2 nodes, alphabet line/opts(1-2, bodies)/if/set/jump/stop/command/call/command completed by the host after one poll", size))
 	extra := map[string]func(g *progGen) *yc.Stmt{
 		"cmd":  func(g *progGen) *yc.Stmt { return yc.Command("act", yc.CmdArg{Word: fmt.Sprint(g.lineNo)}) },
 		"call": func(g *progGen) *yc.Stmt { return yc.Call("note", yc.ENumber(float64(g.lineNo))) },
 		"setn": func(g *progGen) *yc.Stmt { return yc.Set("n", "=", yc.ENumber(float64(1+g.lineNo))) },
+		"dcmd": func(g *progGen) *yc.Stmt { return yc.Command("later", yc.CmdArg{Word: fmt.Sprint(g.lineNo)}) },
 	}
 	part(ctx, "E1", -1, func(c *explore.Chooser) {
-		g := &progGen{c: c, rem: size, kinds: []string{"line", "opts", "if", "stop", "cmd", "setn", "jump", "call"}, maxDepth: 2, maxOpts: 2, maxCl: 1, conds: condsF[:2], extra: extra}
+		g := &progGen{c: c, rem: size, kinds: []string{"line", "opts", "if", "stop", "cmd", "setn", "jump", "call", "dcmd"}, maxDepth: 2, maxOpts: 2, maxCl: 1, conds: condsF[:2], extra: extra}
 		p := g.program(report.Pick(ctx, 1, 2))
 		if !c.Mine() {
 			return
